@@ -47,6 +47,10 @@ var c08TreeCfg = h.TreeCfg{
 func genC08(t *rapid.T) *c08Case {
 	c := &c08Case{Tree: h.GenTree(t, c08TreeCfg, "t")}
 	c.Many = rapid.IntRange(30, 120).Draw(t, "many")
+	if rapid.IntRange(0, 3).Draw(t, "huge") == 0 {
+		// enough entries to fill every internal queue (64/128/132/256+ pending items)
+		c.Many = rapid.SampledFrom([]int{400, 700}).Draw(t, "hugemany")
+	}
 	if rapid.Bool().Draw(t, "dirty") {
 		d := c08Tree(c)
 		for i := 0; i < rapid.IntRange(1, 4).Draw(t, "nedits"); i++ {
@@ -80,6 +84,9 @@ func c08Tree(c *c08Case) *h.Tree {
 	if _, ok := tr.Index()["many"]; !ok {
 		tr.Nodes = append(tr.Nodes, h.Node{Path: "many", Kind: h.KDir, Perm: 0o755, Mtime: 5})
 		sizes := []int{40000, 70000, 100003, 32768, 65537}
+		if c.Many > 200 {
+			sizes = []int{100, 33000, 7, 40000}
+		}
 		for i := 0; i < c.Many; i++ {
 			tr.Nodes = append(tr.Nodes, h.Node{Path: fmt.Sprintf("many/f%04d", i), Kind: h.KFile, Perm: 0o644, Mtime: int64(7 + i), Seed: uint32(1000 + i), Size: sizes[i%len(sizes)]})
 		}
@@ -163,6 +170,7 @@ type c08Outcome struct {
 	Overlaps  []string
 	Interleav bool
 	Err       string
+	Dump      string
 }
 
 func c08RunOne(env *h.Env, c *c08Case, tree *h.Tree, idx int, s c08Schedule) (*c08Outcome, error) {
@@ -229,6 +237,10 @@ func c08RunOne(env *h.Env, c *c08Case, tree *h.Tree, idx int, s c08Schedule) (*c
 	out := &c08Outcome{}
 	if res.Stuck != "" {
 		out.Err = "stuck"
+		out.Dump = res.Stuck
+		if len(out.Dump) > 6000 {
+			out.Dump = out.Dump[:6000] + "..."
+		}
 		return out, nil
 	}
 	if res.SendErr != nil || res.RecvErr != nil {
@@ -326,8 +338,8 @@ func c08Check(env *h.Env, c *c08Case) error {
 		}
 		what := fmt.Sprintf("schedule %d (capacity %d, GOMAXPROCS %d, seed %d, gate %d)", i, s.Capacity, s.Procs, s.Seed, s.Gate)
 		if out.Err == "stuck" {
-			env.Class("stuck")
-			return nil
+			// a fault-free transfer that never terminates under this schedule
+			return fmt.Errorf("%s: the fault-free transfer never terminated (every goroutine blocked):\n%s", what, out.Dump)
 		}
 		if out.Err != "" {
 			return fmt.Errorf("%s: fault-free transfer failed: %s", what, out.Err)
